@@ -168,9 +168,10 @@ def at_ (h : Heap) (r : Ptr) (n : Int) : Ptr :=
   match r with
   | none => none
   | some r =>
-    -- next := (*Ring[T]).Next; if n < 0 { n = -n; next = (*Ring[T]).Prev }
-    if Gen.Ring.atNeg n then atLoop (h.get Gen.Ring.atBack) r (Gen.Ring.atNegated n).toNat r
-    else atLoop (h.get Gen.Ring.atFwd) r n.toNat r
+    -- next, step := (*Ring[T]).Next, 1; if n < 0 { next, step = (*Ring[T]).Prev, -1 };
+    -- for n != 0 { …; n -= step }: the loop body runs n / step times (step = ±1, of n's sign)
+    if Gen.Ring.atNeg n then atLoop (h.get Gen.Ring.atBack) r (n / Gen.Ring.atStepBack).toNat r
+    else atLoop (h.get Gen.Ring.atFwd) r (n / Gen.Ring.atStepFwd).toNat r
 
 /-- `r.Peek(n)` -/
 def peek (h : Heap) (r : Ptr) (n : Int) : Int × Bool :=
